@@ -4,7 +4,7 @@
 From Coq Require Import Permutation.
 From Verif Require Import Base.Lex Region.Model Region.Ord Region.ProofsContains Region.ProofsGroup Region.ProofsInsert
   Region.ProofsMerge Region.ProofsGap Region.ProofsPhase1 Region.ProofsPhase2
-  Region.Converge Region.ProofsConvA Region.ProofsConvB Region.ProofsConvC Region.PdCodec Region.ProofsBucket Region.Peers Region.ProofsBudget Region.ProofsLatest.
+  Region.Converge Region.ProofsConvA Region.ProofsConvB Region.ProofsConvC Region.PdCodec Region.ProofsBucket Region.Peers Region.ProofsBudget Region.ProofsLatest Region.ProofsApi Region.ProofsGc.
 Open Scope N_scope.
 
 (* ---- containment ---- *)
@@ -46,6 +46,26 @@ Theorem C09_contains_by_id : forall pd budget t c id r c' t',
   pd_byid_sound pd -> locate_by_id pd budget t c id = (Ok r, c', t') -> r_id r = id.
 Proof. intros pd budget t c id r c' t' H. exact (locate_by_id_id pd budget H t c id r c' t'). Qed.
 Print Assumptions C09_contains_by_id.
+
+(* TryLocateKey (cache only) *)
+Theorem C09_contains_try : forall c key r, try_find c key false = Some r -> r_contains r key = true.
+Proof. intros c key r H. exact (try_find_holds c key false r H). Qed.
+Print Assumptions C09_contains_try.
+(* LocateRegionByIDFromPD (bypasses the cache) *)
+Theorem C09_contains_by_id_from_pd : forall pd budget t id r t',
+  pd_byid_sound pd -> load_by_id pd budget t id = (Ok r, t') -> r_id r = id.
+Proof. intros pd budget t id r t' H. exact (load_by_id_id pd budget H t id r t'). Qed.
+Print Assumptions C09_contains_by_id_from_pd.
+(* ListRegionIDsInKeyRange: the regions listed form a chain — the first holds the start key, each next one holds the end key
+   of the one before, the last holds the end key *)
+Theorem C09_list_region_ids_chain : forall pd budget fuel t c s e res c' t',
+  pd_get_sound pd -> pd_prev_sound pd ->
+  list_region_ids pd budget fuel t c s e [] = (Ok res, c', t') -> chain s e res.
+Proof.
+  intros pd budget fuel t c s e res c' t' H1 H2 H.
+  destruct (list_region_ids_chain pd budget H1 H2 fuel t c s e [] res c' t' H) as [new [-> Hc]]. exact Hc.
+Qed.
+Print Assumptions C09_list_region_ids_chain.
 
 (* ---- gap-free coverage of multi-region lookups ---- *)
 (* the merger alone: ANY cached list sorted by start key, ANY sequence of loaded regions — nothing that lies in a
@@ -107,6 +127,28 @@ Proof.
   - exists l. split; [exact Hl1|]. apply r_contains_spec. exact Hl2.
 Qed.
 Print Assumptions C09_key_range_gap_free.
+
+(* LoadRegionsInKeyRange (PD only) *)
+Theorem C09_load_regions_gap_free : forall pd budget batch_limit fuel t c s e regs c' t',
+  pd_leaders pd ->
+  load_regions_in_range pd budget batch_limit fuel t c s e [] = (Ok regs, c', t') ->
+  forall k, in_range s e k -> exists l, In l regs /\ in_range (r_start l) (r_end l) k.
+Proof.
+  intros pd budget bl fuel t c s e regs c' t' Hl H k [Hk1 Hk2].
+  destruct (load_regions_covers pd budget bl Hl s e fuel t c s [] regs c' t') with (k := k) as [l [Hl1 Hl2]]; try assumption.
+  - intros k0 H1 _ H3. exfalso. apply leb_not_ltb in H1. congruence.
+  - exists l. split; [exact Hl1|]. apply r_contains_spec. exact Hl2.
+Qed.
+Print Assumptions C09_load_regions_gap_free.
+(* BatchLoadRegionsWithKeyRanges (and ...WithKeyRange / ...FromKey through it): what one call loads covers the ranges up to
+   the end of the last loaded region *)
+Theorem C09_batch_load_covers : forall pd budget fuel t c rs count nl regs c' t',
+  rs <> [] -> ranges_wf rs -> (nl = true -> pd_leaders pd) ->
+  batch_load_ranges pd budget fuel t c rs count nl = (Ok regs, c', t') ->
+  forall k, in_ranges rs k ->
+    covered regs k \/ (exists lastr x, rev regs = lastr :: x /\ r_end lastr <> [] /\ lex_leb (r_end lastr) k = true).
+Proof. intros pd budget. exact (batch_load_ranges_covers pd budget). Qed.
+Print Assumptions C09_batch_load_covers.
 
 (* the sorted-index invariant the two theorems above need is kept by every insertion, starting from the empty cache *)
 Theorem C09_index_sorted : forall rs c, sorted_starts (c_sorted c) -> sorted_starts (c_sorted (insert_all c rs)).
@@ -286,6 +328,31 @@ Theorem C09_bucket_version_mono : forall r deleted,
 Proof. exact inherit_bk_version. Qed.
 Print Assumptions C09_bucket_version_mono.
 
+(* UpdateBucketsIfNeeded's background reload racing with OnBucketVersionNotMatch on the entry it replaces: both orders end with
+   the same bucket version, the maximum of PD's, the cached one and the reported one — nothing is lost or rolled back *)
+Theorem C09_bucket_race_confluent : forall r old ver keys,
+  bk_ver (r_bk (keep_bk r (bvnm_e ver keys old))) = N.max (N.max (bk_ver (r_bk r)) (bk_ver (r_bk old))) ver /\
+  bk_ver (r_bk (bvnm_e ver keys (keep_bk r old))) = N.max (N.max (bk_ver (r_bk r)) (bk_ver (r_bk old))) ver.
+Proof. exact bucket_race_confluent. Qed.
+Print Assumptions C09_bucket_race_confluent.
+
+(* ---- TTL expiry and cache GC ---- *)
+(* containment holds for ANY cache, hence also right after a GC round or an expiry: stated once explicitly *)
+Theorem C09_contains_after_gc : forall pd budget fuel t c key is_end r c' t',
+  pd_get_sound pd -> pd_prev_sound pd ->
+  find_region_by_key pd budget fuel t (gc c) key is_end = (Ok r, c', t') ->
+  (if is_end then r_contains_end r key else r_contains r key) = true.
+Proof. intros pd budget fuel t c. exact (C09_contains pd budget fuel t (gc c)). Qed.
+Print Assumptions C09_contains_after_gc.
+(* GC (expired entries dropped with their by-version and latest records, delayed reloads promoted) and TTL expiry keep the
+   invariant the convergence theorem starts from: convergence within 4 rounds is not lost *)
+Theorem C09_gc_keeps_invariant : forall truth c, truth_wf truth -> cinv truth c -> cinv truth (gc c).
+Proof. intros truth c _. exact (gc_inv truth c). Qed.
+Print Assumptions C09_gc_keeps_invariant.
+Theorem C09_expire_keeps_invariant : forall truth c r, cinv truth c -> In r (c_sorted c) -> cinv truth (upd_entry c r expire_r).
+Proof. exact expire_inv. Qed.
+Print Assumptions C09_expire_keeps_invariant.
+
 (* ---- peers of a fresh region (newRegion) ---- *)
 (* for ANY PD answer: the usable peers are exactly those whose store has an address, that PD does not list as down,
    and that are not witnesses — except a witness that is the reported leader (kept on purpose) *)
@@ -422,3 +489,8 @@ Example C09_converges_after_decommission :
   rounds cv_truth (fun _ => cv_truth) cv_pd 3 3 1 c [99] = false /\ rounds cv_truth (fun _ => cv_truth) cv_pd 3 3 2 c [99] = true.
 Proof. vm_compute. repeat split. Qed.
 
+(* GC and expiry in the convergence example: the stale entry expires, GC drops it, the next request is served at once *)
+Example C09_gc_nonvacuous :
+  let c := gc (upd_entry cv_cache cv_stale expire_r) in
+  c_sorted c = [] /\ c_latest c = [] /\ rounds cv_truth (fun _ => cv_truth) cv_pd 3 3 1 c [99] = true.
+Proof. vm_compute. repeat split. Qed.
